@@ -228,12 +228,15 @@ func (w *world) proofMap(precommit bool, h uint64, r uint32, ps []jProof) map[st
 	return out
 }
 
+// ids >= 1000000 are TWINS: the same header (block hash, data id) as id % 1000000 proposed again with another signature -
+// another ProposedHeader for the same block (the block hash does not cover proposer, signature or annotations).
 func phFor(id, h uint64, r uint32) tmconsensus.ProposedHeader {
+	base := id % 1000000
 	return tmconsensus.ProposedHeader{
 		Header: tmconsensus.Header{
 			Height: h,
-			Hash:   []byte("hdr-" + strconv.FormatUint(id, 10)),
-			DataID: []byte("data-" + strconv.FormatUint(id, 10)),
+			Hash:   []byte("hdr-" + strconv.FormatUint(base, 10)),
+			DataID: []byte("data-" + strconv.FormatUint(base, 10)),
 		},
 		Round:     r,
 		Signature: []byte("phsig-" + strconv.FormatUint(id, 10)),
@@ -242,9 +245,8 @@ func phFor(id, h uint64, r uint32) tmconsensus.ProposedHeader {
 
 func phID(ph tmconsensus.ProposedHeader) interface{} {
 	hs, ss := string(ph.Header.Hash), string(ph.Signature)
-	if strings.HasPrefix(hs, "hdr-") && strings.HasPrefix(ss, "phsig-") && hs[4:] == ss[6:] &&
-		string(ph.Header.DataID) == "data-"+hs[4:] {
-		if id, err := strconv.ParseUint(hs[4:], 10, 64); err == nil {
+	if strings.HasPrefix(hs, "hdr-") && strings.HasPrefix(ss, "phsig-") && string(ph.Header.DataID) == "data-"+hs[4:] {
+		if id, err := strconv.ParseUint(ss[6:], 10, 64); err == nil && strconv.FormatUint(id%1000000, 10) == hs[4:] {
 			return id
 		}
 	}
